@@ -23,6 +23,9 @@ pub fn oracle(c: &MutCase, obs: &mut Obs) -> Vec<Violation> {
     let mt = &c.mt;
     let e2: Vec<_> = m.body.errs_all.iter().map(key).collect();
     let e1: Vec<_> = m.body.errs_first.iter().map(key).collect();
+    if c.mutation == "few-violations" && e2.len() == 1 {
+        obs.class(&format!("single-violation:MT{}:{}", mt, m.body.errs_all[0].code));
+    }
     obs.class(match e2.len() {
         0 => "errors:0",
         1 => "errors:1",
@@ -164,8 +167,93 @@ pub fn oracle(c: &MutCase, obs: &mut Obs) -> Vec<Violation> {
     out
 }
 
+/// A rule-relevant message reduced towards a single violation: optional fields are removed one at a
+/// time (in an order drawn from the choice sequence) as long as the message stays accepted and its
+/// number of errors goes down without reaching zero. The library's own error count only steers this
+/// search; it judges nothing.
+pub fn few_violations(mt: &str, src: &mut Src) -> MutCase {
+    let ops = msg_ops(mt);
+    let crlf = src.chance(1, 5);
+    let count = |toks: &[crate::refs::Tok]| -> Option<usize> {
+        let c = MutCase {
+            mt: mt.to_string(),
+            toks: toks.to_vec(),
+            mutation: String::new(),
+            tag: String::new(),
+            bad_content: false,
+            crlf: false,
+            wrapper: true,
+            envelope: true,
+        };
+        (ops.parse_full)(&c.enveloped())
+            .ok()
+            .map(|m| m.body.errs_all.len())
+    };
+    let mut best: Option<(usize, Vec<crate::refs::Tok>, Vec<bool>)> = None;
+    for _ in 0..4 {
+        let m = crate::props::c04::gen_rule_msg(mt, src);
+        let toks = toks_of(&m);
+        let mand: Vec<bool> = m.fields.iter().map(|f| f.mandatory).collect();
+        if let Some(n) = count(&toks) {
+            if n > 0 {
+                best = Some((n, toks, mand));
+                break;
+            }
+            if best.is_none() {
+                best = Some((n, toks, mand));
+            }
+        }
+    }
+    let (mut n, mut toks, mut mand) = match best {
+        Some(x) => x,
+        None => {
+            let mut c = crate::props::c04::gen_rule_case(mt, src);
+            c.mutation = "few-violations".into();
+            return c;
+        }
+    };
+    let mut rounds = 0;
+    while n > 1 && rounds < 60 {
+        rounds += 1;
+        let optional: Vec<usize> = (0..toks.len()).filter(|i| !mand[*i]).collect();
+        if optional.is_empty() {
+            break;
+        }
+        // try up to 8 removals from a random starting point
+        let start = src.below(optional.len());
+        let mut improved = false;
+        for k in 0..optional.len().min(8) {
+            let i = optional[(start + k) % optional.len()];
+            let mut t2 = toks.clone();
+            t2.remove(i);
+            if let Some(n2) = count(&t2) {
+                if n2 >= 1 && n2 < n {
+                    toks = t2;
+                    mand.remove(i);
+                    n = n2;
+                    improved = true;
+                    break;
+                }
+            }
+        }
+        if !improved {
+            break;
+        }
+    }
+    MutCase {
+        mt: mt.to_string(),
+        toks,
+        mutation: "few-violations".into(),
+        tag: String::new(),
+        bad_content: false,
+        crlf,
+        wrapper: true,
+        envelope: true,
+    }
+}
+
 pub fn run(ctx: &Ctx) {
-    ctx.add_rule("per message type: messages from the layout generator with rule-relevant contents (codes, currencies, amounts drawn from small pools so that rule antecedents fire, see C04) and their structural mutations; accepted => validating seven times in a row gives the same list every time (each error compared with all of its payloads, related fields included), rules(true) is a prefix of rules(false) with equal emptiness, SwiftMessage::validate / ParsedSwiftMessage::validate / validate_mt agree in verdict, count and order, a second call is identical and the message is unchanged; non-trivial = at least one rule violated; distinct by text");
+    ctx.add_rule("per message type: messages from the layout generator with rule-relevant contents (codes, currencies, amounts drawn from small pools so that rule antecedents fire, see C04) and their structural mutations; plus `few-violations`: such a message reduced towards a single violation by removing optional fields while it stays accepted and keeps at least one error; accepted => validating seven times in a row gives the same list every time (each error compared with all of its payloads, related fields included), rules(true) is a prefix of rules(false) with equal emptiness, SwiftMessage::validate / ParsedSwiftMessage::validate / validate_mt agree in verdict, count and order, a second call is identical and the message is unchanged; non-trivial = at least one rule violated; distinct by text");
     let to_json = |c: &MutCase| serde_json::to_value(c).unwrap();
     ctx.run_generated(
         "coherence",
@@ -173,6 +261,17 @@ pub fn run(ctx: &Ctx) {
         ctx.n(1500, 40000),
         1800,
         &|sh, src: &mut Src| crate::props::c04::gen_rule_case(mt_of_shard(sh), src),
+        &oracle,
+        &to_json,
+    );
+    // messages with few violations (see few_violations). A message whose only violation belongs to the rule checked last is what separates a
+    // correct stop-on-first mode from one that gives up early.
+    ctx.run_generated(
+        "few-violations",
+        MSGS.len(),
+        ctx.n(600, 15000),
+        6000,
+        &|sh, src: &mut Src| few_violations(mt_of_shard(sh), src),
         &oracle,
         &to_json,
     );
